@@ -119,20 +119,13 @@ Print Assumptions C12_core_degree_nonvacuous.
 (* ------------------------------------------------------------------ refuted: the OPEN exclusions are real.
    For each still-open non-homogeneous site there is a valuation rho and a unit change t > 0 (here t = 2: every
    length multiplied by 4) such that, for EVERY interpretation of the opaque functions, the comparison taken
-   from the current source decides differently after the unit change (refutes), resp. the value handed to a
-   length parameter does not scale like a length (refutes_deg).  Proved by the rational evaluator of
+   from the current source decides differently after the unit change (refutes).  (The absolute numbers of
+   lines_end_in_trimesh, the ray start offset, is_facet_inwards and segments_intersect_facets are still in the source but
+   are now applied to a unit-size copy of the mesh, i.e. to dimensionless data: they are no longer refutable and are
+   proved invariant above.)  Proved by the rational evaluator of
    Proofs/DimQ.v (sound for the real semantics) and vm_compute; pick_cmp / pick_arg look the obligation up by
    its id in the regenerated GenTol (a missing id gives BConst true / Const 0, which cannot be refuted). *)
 From MV Require Import Proofs.DimQ Proofs.DimRefute.
-
-Theorem C12_lines_end_area_eps_refuted :
-  refutes lines_end_rec (pick_cmp lines_end_rec "trimesh_lines_end>lines_end_in_trimesh>np.abs(area1) < eps" 0).
-Proof. exact lines_end_area_refuted. Qed.
-Print Assumptions C12_lines_end_area_eps_refuted.
-
-Theorem C12_lines_end_coincide_eps_refuted :
-  refutes lines_end_rec (pick_cmp lines_end_rec "trimesh_lines_end>lines_end_in_trimesh>v_norm2(l1 - ref_pts) < eps" 0).
-Proof. exact lines_end_coincide_refuted. Qed.
 
 Theorem C12_cylinder_segment_margin_refuted :
   refutes cylseg_rec (pick_cmp cylseg_rec "cylinder_segment>BHJM_cylinder_segment>r < r2 + 1e-14" 0).
@@ -148,18 +141,12 @@ Theorem C12_determine_cases_close_refuted :
     "cylinder_segment_cases>determine_cases>close(r, 0)>np.isclose(arg1, arg2, rtol=1e-12, atol=1e-12)" 0).
 Proof. exact cases_close_refuted. Qed.
 
-Theorem C12_ray_start_refuted :
-  refutes_deg inside_rec 2 (pick_arg inside_rec
-    "trimesh_inside>mask_inside_trimesh>lines_end_in_trimesh(test_lines, faces)>arg:lines.0").
-Proof. exact ray_start_refuted. Qed.
 Print Assumptions C12_cylinder_segment_margin_refuted.
 Print Assumptions C12_cylinder_segment_close_refuted.
 Print Assumptions C12_determine_cases_close_refuted.
-Print Assumptions C12_lines_end_coincide_eps_refuted.
-Print Assumptions C12_ray_start_refuted.
 
 (* the refuted records are entries of GenTol.functions *)
 Theorem C12_refuted_records_in_functions :
-  In lines_end_rec functions /\ In inside_rec functions /\ In cylseg_rec functions /\ In cases_rec functions.
+  In cylseg_rec functions /\ In cases_rec functions.
 Proof. exact recs_in_functions. Qed.
 Print Assumptions C12_refuted_records_in_functions.
